@@ -70,9 +70,18 @@
 (*          array that IS self.ubi)                                        *)
 (*   argl   the caller still holds, unedited, the array it handed to the   *)
 (*          constructor / the last set_ubi                                 *)
-(*   SetUbi(m, how)  set_ubi: ver+1, clear_cache (FORGET = fields it       *)
+(*   SetUbi(m, how, obj)  set_ubi: ver+1, clear_cache (FORGET = fields it  *)
 (*              forgets), self.ubi = np.array(ubi, float) is a copy        *)
-(*              (ALIASARG = TRUE: it is the caller's array)                *)
+(*              (ALIASARG = TRUE: it is the caller's array).               *)
+(*              obj = which array object carries the new values:           *)
+(*                new  an array the grain has never seen                   *)
+(*                arg  the very array handed to the constructor / the last *)
+(*                     set_ubi, edited in place by the caller              *)
+(*                own  the array the grain itself holds: a = g.ubi, edited *)
+(*                     in place, g.set_ubi(a)                              *)
+(*              Identity is not content: the same object with new values   *)
+(*              IS a new matrix (SAMEKEEP = TRUE: set_ubi of the object    *)
+(*              already stored keeps the caches).                          *)
 (*   EditArg    the caller overwrites the array it handed in (with the     *)
 (*              other matrix); every later read must still describe the    *)
 (*              matrix as it was at the call                               *)
@@ -81,7 +90,8 @@
 (*              Rod <- U, UB and mt from ubi; ub / u are aliases; then the *)
 (*              caller overwrites the returned array (NOCOPY = fields that *)
 (*              hand out the cache itself)                                 *)
-(*   The pinned code is FORGET = {}, NOCOPY = {}, ALIASARG = FALSE.        *)
+(*   The pinned code is FORGET = {}, NOCOPY = {}, ALIASARG = FALSE,        *)
+(*   SAMEKEEP = FALSE.                                                     *)
 (*   Invariants: Coherent (cache[f] filled => made from the current ubi    *)
 (*   only), ReadFresh (what Read returned was made from the current ubi),  *)
 (*   DepClosed (a filled cache has its dependency filled), UbiOwn (self.ubi*)
@@ -98,7 +108,8 @@
 (*   View: every transition of the reduced graph, emitted with its         *)
 (*   representative path), _forget / _nocopy / _alias (defect              *)
 (*   configurations: TLC must find Coherent / UbiOwn violated; the         *)
-(*   counterexample is replayed on the real grain, which must not show it).*)
+(*   counterexample is replayed on the real grain, which must not show it),*)
+(*   _same (defect configuration SAMEKEEP).                                *)
 (*                                                                         *)
 (* PART = "cache", OBJ = "tmap" (mode B).  The derived maps of TensorMap   *)
 (*   (tensor_map.py:533-731: __init__, from_ubis, UBI setter, __setitem__, *)
@@ -108,14 +119,30 @@
 (*   New(how)   construction: TensorMap(maps = {UBI: m1}) or               *)
 (*              TensorMap.from_ubis(m1 in reconstruction order: the map is *)
 (*              then a flipped / axis-swapped, non-contiguous view)        *)
-(*   SetUbi(m, how)  how = setter (T.UBI = m) | item (T["UBI"] = m) |      *)
-(*              add_map (T.add_map("UBI", m)); all three clear_cache       *)
+(*   SetUbi(m, how, obj)  how = setter (T.UBI = a) | item (T["UBI"] = a) | *)
+(*              add_map (T.add_map("UBI", a)); all three clear_cache.      *)
+(*              obj = new : a is an array the container has never seen ;   *)
+(*              obj = same : a = T.UBI is the array the container holds    *)
+(*              (the caller's own array, or the view from_ubis made); the  *)
+(*              caller edits it IN PLACE (masks voxels, overwrites         *)
+(*              lattices) and hands the SAME object back - the documented  *)
+(*              way of telling the container that the UBI map changed ;    *)
+(*              obj = view : the same, handed back as a NEW array object   *)
+(*              that is a view of the memory the container holds           *)
+(*              (a = T.UBI[...]).                                          *)
+(*              Edit and hand-back are one step: between them the derived  *)
+(*              maps are out of date by design (no read there).  After it  *)
+(*              every read describes the values now in the array           *)
+(*              (SAMEKEEP = TRUE: the caches survive when the object is    *)
+(*              the one already stored / shares its memory).               *)
 (*   Read(f)    T.f ; the map is handed out by reference by design and the *)
 (*              container keeps the caller's UBI array, so the caller does *)
-(*              not write into either in this model (no EditArg, no        *)
-(*              scribble).  eps_* / sig_* maps belong to property C10.     *)
+(*              not write into a derived map, and writes into the UBI      *)
+(*              array only when he hands it back in the same step (no      *)
+(*              EditArg, no scribble).  eps_* / sig_* maps belong to C10.  *)
 (*   Configurations: Lattice_tmap_q / _t (every behaviour of depth 4 / 5   *)
-(*   incl. New), _tr (every transition), _forget (defect configuration).   *)
+(*   incl. New), _tr (every transition), _forget, _same (defect            *)
+(*   configurations).                                                      *)
 (*                                                                         *)
 (* PART = "map"  NaN-masked voxel maps: MapVoxel picks the mask of the     *)
 (*   UBI map and an independent mask of a B map over a 2x3 map; every      *)
@@ -155,6 +182,7 @@ CONSTANTS PART,       \* "alg" | "cache" | "map" | "call"
           FORGET,     \* cache part: fields clear_cache does not reset   (pinned code: {})
           NOCOPY,     \* cache part: fields whose getter returns the cache itself (pinned code: {})
           ALIASARG,   \* cache part: set_ubi keeps the caller's array instead of a copy (pinned code: FALSE)
+          SAMEKEEP,   \* cache part: assigning the array object already stored keeps the caches (pinned code: FALSE)
           UNWRITTEN,  \* call part: set of <<kernel, arm, element class>> an arm does not store (pinned code: {})
           EmitMode    \* cache part: 0 none, 1 every transition (ACTION_CONSTRAINT), 2 final states
 VARIABLES pc, lat, rot, ver, cur, cache, ret, hist, mku, mkb, ubip, argl, cs
@@ -234,6 +262,10 @@ FieldSeq == IF OBJ = "tmap" THEN <<"UB", "mt", "unitcell", "B", "U">>
 ReadNames == IF OBJ = "tmap" THEN Fields ELSE Fields \cup {"ub", "u"}
 SetHows == IF OBJ = "tmap" THEN {"setter", "item", "add_map"} ELSE {"set_ubi"}
 NewHows == {"maps", "from_ubis"}
+\* which array object carries the new values (identity, not content)
+SetObjs == IF OBJ = "tmap" THEN {"new", "same", "view"} ELSE {"new", "arg", "own"}
+\* is it the object the container / grain holds at the moment of the call ?
+IsStored(o) == o \in {"same", "view", "own"} \/ (o = "arg" /\ ALIASARG)
 Target(n) == IF n = "ub" THEN "UB" ELSE IF n = "u" THEN "U" ELSE n
 Dep(f) == CASE f = "rmt" -> "mt" [] f = "unitcell" -> "mt" [] f = "B" -> "unitcell"
             [] f = "U" -> "B" [] f = "Rod" -> "U" [] OTHER -> "none"
@@ -296,12 +328,16 @@ PickRot  == /\ pc = "rot" /\ \E r \in ROTS : rot' = r
 New(how) == /\ pc = "new" /\ Len(hist) < MaxDepth
             /\ pc' = "cache" /\ hist' = Append(hist, <<"new", how>>)
             /\ UNCHANGED <<lat, rot, ver, cur, cache, ret, mku, mkb, ubip, argl, cs>>
-SetUbi(m, how) == /\ pc = "cache" /\ Len(hist) < MaxDepth
+\* the values of matrix m arrive in the array object o (new: never seen before; arg / own / same: an array the
+\* caller already shares with the object, edited in place beforehand); whatever the object, it is a new version
+SetUbi(m, how, o) ==
+             /\ pc = "cache" /\ Len(hist) < MaxDepth
              /\ ver' = ver + 1 /\ cur' = m
-             /\ cache' = [f \in Fields |-> IF f \in FORGET THEN cache[f] ELSE Empty]
+             /\ cache' = IF SAMEKEEP /\ IsStored(o) THEN cache
+                         ELSE [f \in Fields |-> IF f \in FORGET THEN cache[f] ELSE Empty]
              /\ ret' = {}
              /\ ubip' = {ver + 1} /\ argl' = TRUE
-             /\ hist' = Append(hist, <<"set", m, how>>)
+             /\ hist' = Append(hist, <<"set", m, how, o>>)
              /\ UNCHANGED <<pc, lat, rot, mku, mkb, cs>>
 \* the caller overwrites the array it handed to the constructor / the last set_ubi (grain only)
 EditArg == /\ pc = "cache" /\ OBJ = "grain" /\ argl /\ Len(hist) < MaxDepth
@@ -330,7 +366,7 @@ CallPick == /\ pc = "call0"
 
 Next == PickCell \/ PickGen \/ PickRot
         \/ (\E h \in NewHows : New(h))
-        \/ (\E m \in {2, 1}, h \in SetHows : SetUbi(m, h)) \/ EditArg \/ (\E n \in ReadNames : Read(n))
+        \/ (\E m \in {2, 1}, h \in SetHows, o \in SetObjs : SetUbi(m, h, o)) \/ EditArg \/ (\E n \in ReadNames : Read(n))
         \/ MapVoxel \/ CallPick
 Spec == Init /\ [][Next]_vars
 
